@@ -203,6 +203,30 @@ func (n *Node) ReissueLDPresentation(captured []byte, created time.Time, expires
 	return json.Marshal(out)
 }
 
+// BuildLDPresentation has this node's wallet code sign a JSON-LD presentation of the given credentials as they are
+// (no validation of the credentials: what the operator of a holder node can do with the keys it holds).
+func (n *Node) BuildLDPresentation(credentials []json.RawMessage, holderID string, expires time.Time) ([]byte, error) {
+	var creds []vc.VerifiableCredential
+	for _, c := range credentials {
+		var cred vc.VerifiableCredential
+		if err := json.Unmarshal(c, &cred); err != nil {
+			return nil, err
+		}
+		creds = append(creds, cred)
+	}
+	holderDID, err := did.ParseDID(holderID)
+	if err != nil {
+		return nil, err
+	}
+	holderURI := holderDID.URI()
+	opts := holder.PresentationOptions{Holder: &holderURI, Format: "ldp_vp", ProofOptions: proof.ProofOptions{Created: time.Now(), Expires: &expires}}
+	out, err := n.VCR().Wallet().BuildPresentation(Ctx(), creds, opts, holderDID, false)
+	if err != nil {
+		return nil, err
+	}
+	return json.Marshal(out)
+}
+
 // SignJWTLike signs the claims of an existing JWT, changed by edit, with the given key of this node.
 func (n *Node) SignJWTLike(token string, kid string, edit func(claims map[string]interface{})) (string, error) {
 	parts := strings.Split(strings.TrimSpace(token), ".")
